@@ -55,6 +55,10 @@ def make_exception(kind, who):
         return KeyError(who)
     if kind == 'custom':
         return CustomError(who, detail=object())
+    if kind == 'group':
+        return ExceptionGroup("several things went wrong in %s" % who, [Boom(who), KeyError(who)])
+    if kind == 'queue':
+        return asyncio.QueueEmpty()                     # a job's own: the library uses queues itself
     return Boom(who)
 
 
@@ -126,6 +130,40 @@ async def _slow_close(close, interrupted):
         await asyncio.sleep(close)
 
 
+def _sub(awaitable):
+    """a task of the job's own, marked so that the harness does not mistake
+    what the job does to it for a request concerning a job"""
+    task = asyncio.ensure_future(awaitable)
+    task._vsub = True
+    return task
+
+
+async def _work(spec, dur):
+    """the main delay of a body, possibly spent in tasks of the job's own"""
+    sub = spec.get('sub')
+    if sub == 'gather':
+        await asyncio.gather(_sub(asyncio.sleep(dur)), _sub(asyncio.sleep(dur / 2)))
+    elif sub == 'taskgroup':
+        async with asyncio.TaskGroup() as group:
+            for d in (dur, dur / 2):
+                group.create_task(asyncio.sleep(d))._vsub = True
+    elif sub == 'shield':
+        inner = _sub(asyncio.sleep(dur))
+        try:
+            await asyncio.shield(inner)
+        except asyncio.CancelledError:
+            # shielded from the cancellation, hence ours to stop before leaving
+            inner.cancel()
+            while not inner.done():
+                try:
+                    await asyncio.wait([inner])
+                except asyncio.CancelledError:
+                    pass
+            raise
+    else:
+        await asyncio.sleep(dur)
+
+
 async def body(trace, spec, who):
     trace.log('enter', who)
     noted = []
@@ -165,7 +203,7 @@ async def body(trace, spec, who):
             else:
                 await asyncio.get_running_loop().create_future()
         elif dur > 0:
-            await asyncio.sleep(dur)
+            await _work(spec, dur)
         for _ in range(spec.get('post', 0)):
             await asyncio.sleep(0)
     except asyncio.CancelledError:
@@ -569,6 +607,8 @@ def execute(spec, loop_seed=None, horizon=None, quiescent=None, run_on=1000.0,
                                    for vid, job in reg.items() if hasattr(job, 'required')}
 
             def on_cancel(task, accepted):
+                if getattr(task, '_vsub', False):
+                    return                              # a job dealing with a task of its own
                 job = job_of_task(task, reg)
                 vid = getattr(job, 'vid', None)
                 if vid is not None and accepted:
